@@ -10,6 +10,7 @@ import (
 	"sort"
 	"strings"
 	"sync"
+	"sync/atomic"
 	"time"
 
 	"github.com/Trendyol/go-dcp/config"
@@ -237,6 +238,8 @@ type session struct {
 	failSet map[int]bool
 	tr      *Trace
 	rng     *rand.Rand
+	notifyCtr   int64
+	notifyWG    sync.WaitGroup
 	ehHolds     []chan struct{}
 	consHold    chan struct{}
 	stopReaders []chan struct{}
@@ -475,7 +478,7 @@ func RunSession(spec *SessSpec) *Trace {
 			env.Sim.PutDoc(fmt.Sprintf("_connector:cbgo:%s:checkpoint:%d", cfg.Dcp.Group.Name, vb), []byte("{}"), map[string]json.RawMessage{"cbgo": json.RawMessage(doc)})
 		}
 	}
-	if spec.API || spec.Membership == "dynamic" {
+	if spec.API || spec.Membership == "dynamic" || spec.Membership == "kubernetesHa" {
 		tr.APIPort = hx.FreePort()
 		cfg.API.Disabled = false
 		cfg.API.Port = tr.APIPort
@@ -483,6 +486,9 @@ func RunSession(spec *SessSpec) *Trace {
 	}
 	if spec.Membership == "dynamic" {
 		cfg.Dcp.Group.Membership.Type = "dynamic"
+	}
+	if spec.Membership == "kubernetesHa" {
+		cfg.Dcp.Group.Membership.Type = "kubernetesHa" // fed through the bus by PUT /membership/info; the configured delay applies
 	}
 	if spec.Membership == "couchbase" {
 		cfg.Dcp.Group.Membership.Type = "couchbase"
@@ -570,7 +576,7 @@ func RunSession(spec *SessSpec) *Trace {
 		}
 		cfg.Checkpoint.Timeout = 250 * time.Millisecond
 	}
-	if spec.Membership == "dynamic" {
+	if spec.Membership == "dynamic" || spec.Membership == "kubernetesHa" {
 		opts.WhileStarting = func() {
 			fi := spec.FirstInfo
 			if fi[1] == 0 {
@@ -750,6 +756,47 @@ func RunSession(spec *SessSpec) *Trace {
 			s.ehHolds = nil
 		case "rebalanceapi":
 			go hx.HTTPDo("GET", fmt.Sprintf("http://127.0.0.1:%d/rebalance", tr.APIPort), "", 30*time.Second)
+		case "notify": // one membership-change notification: Sel = "put" (bus route, N/VB = member/total) or "get" (GET /rebalance); Ms != 0: do not wait for the HTTP reply
+			do := func(sel string, member, total int) {
+				id := atomic.AddInt64(&s.notifyCtr, 1)
+				if sel == "get" {
+					env.Log.Add(evlog.Rec{K: "ctl.notify.call", VB: -1, S: "get", A: uint64(id)})
+					_, body, err := hx.HTTPDo("GET", fmt.Sprintf("http://127.0.0.1:%d/rebalance", tr.APIPort), "", 60*time.Second)
+					res := body
+					if err != nil {
+						res = "error: " + err.Error()
+					}
+					env.Log.Add(evlog.Rec{K: "ctl.notify.ret", VB: -1, S: "get:" + res, A: uint64(id)})
+					return
+				}
+				env.Log.Add(evlog.Rec{K: "ctl.notify.call", VB: -1, S: "put", A: uint64(id), B: uint64(member), C: uint64(total)})
+				hx.HTTPDo("PUT", fmt.Sprintf("http://127.0.0.1:%d/membership/info", tr.APIPort), fmt.Sprintf(`{"memberNumber":%d,"totalMembers":%d}`, member, total), 60*time.Second)
+				env.Log.Add(evlog.Rec{K: "ctl.notify.ret", VB: -1, S: "put", A: uint64(id), B: uint64(member), C: uint64(total)})
+				env.Log.Add(evlog.Rec{K: "ctl.membership", VB: -1, A: uint64(member), B: uint64(total)})
+			}
+			if st.Ms != 0 {
+				s.notifyWG.Add(1)
+				go func(sel string, m, t int) { defer s.notifyWG.Done(); do(sel, m, t) }(st.Sel, st.N, st.VB)
+				time.Sleep(3 * time.Millisecond)
+			} else {
+				do(st.Sel, st.N, st.VB)
+			}
+		case "waitcycles": // wait until N rebalance cycles completed (AfterRebalanceEnd) or the timeout
+			want := st.N
+			hx.WaitFor(time.Duration(st.Ms)*time.Millisecond, func() bool { return env.Log.Count("eh.ARE") >= want })
+		case "quiet": // wait until no lifecycle callback has been seen for Ms milliseconds
+			last := -1
+			lastT := time.Now()
+			for time.Since(lastT) < time.Duration(st.Ms)*time.Millisecond {
+				n := 0
+				for _, k := range []string{"eh.BRS", "eh.ARS", "eh.BRE", "eh.ARE", "eh.BSS", "eh.ASS", "eh.BSStart", "eh.ASStart"} {
+					n += env.Log.Count(k)
+				}
+				if n != last {
+					last, lastT = n, time.Now()
+				}
+				time.Sleep(5 * time.Millisecond)
+			}
 		case "releasereq":
 			close(reqHoldCh)
 		case "waithold":
@@ -1009,10 +1056,21 @@ func (s *session) barrier() {
 	}
 	wants := map[int]want{}
 	reqStart := map[int]uint64{}
+	var lastOpen int64
+	for _, r := range s.env.Log.Filter(func(r evlog.Rec) bool { return r.K == "eh.BSStart" }) {
+		lastOpen = r.T
+	}
+	assigned := map[int]bool{}
 	for _, r := range s.env.Log.Filter(func(r evlog.Rec) bool { return r.K == "sim.rx" && r.Op == cbsim.OpDcpStreamReq }) {
 		reqStart[r.VB] = r.A
+		if r.T >= lastOpen {
+			assigned[r.VB] = true
+		}
 	}
 	for vb := 0; vb < s.spec.NumVB; vb++ {
+		if !assigned[vb] || s.env.Sim.OpenStreams(uint16(vb)) == 0 {
+			continue // not in the range in effect (or its stream has ended): nothing will be observed for it
+		}
 		for _, it := range s.env.Sim.HistoryCopy(uint16(vb)) {
 			if _, rb := s.spec.Rollbacks[vb]; rb && it.SeqNo <= s.spec.PreStore[vb][1] {
 				continue // replayed at or below the checkpointed position after a rollback: filtered
